@@ -1,7 +1,7 @@
 ----------------------------- MODULE TreeAuthMC -----------------------------
 (* Bounds for the exhaustive runs of TreeAuth.  Three focuses are explored in one TLC run:   *)
 (*   hist   long ACL histories (every event sequence the ACL validator admits), the           *)
-(*          candidate delivered alone on a bare tree: decides "writer at the cited record"   *)
+(*          candidate delivered alone or behind a change of the same author: "writer at the  *)
 (*          for every position of the cited record relative to grant / demote / remove /     *)
 (*          re-add, and that the recorded permission history stays faithful,                  *)
 (*   acl    shorter histories interleaved with a tree of accepted parent changes (signed by   *)
@@ -14,11 +14,16 @@ EXTENDS TreeAuth
 AllEv == {"addW", "addR", "joinW", "req", "accW", "promote", "demote", "remove", "other"}
 Bd(ma, mp, mf, ev, ki, au, mu, pk, fl) ==
     [MaxAcl |-> ma, MaxParents |-> mp, MaxFill |-> mf, Events |-> ev, Kinds |-> ki, Authors |-> au,
-     Muts |-> mu, PKinds |-> pk, Filters |-> fl]
+     Muts |-> mu, PKinds |-> pk, Filters |-> fl, FAuthors |-> {"W"}, FCites |-> "two", Shape |-> "full"]
 
-Hist(n)  == Bd(n, 0, 0, AllEv, {"signed"}, {"S", "W"}, {"none"}, {"heads"}, {FALSE})
-AclT(n, p) == Bd(n, p, 1, AllEv, {"signed", "reduced"}, {"S", "W"}, {"none"},
-                 {"heads", "fork", "redundant", "oldroot"}, {FALSE})
+\* hist: a tree that already has one change on its root ("grown"), so that "fork" parents are inner
+\* changes; the candidate alone, or behind one valid-looking change of the *same subject author*
+\* citing any known record, or as the signature-less twin of the change unmarshalled just before
+\* (same batch / previous call)
+Hist(n)  == [Bd(n, 0, 1, AllEv, {"grown"}, {"S", "W"}, {"none", "twin"}, {"heads", "fork"}, {FALSE})
+               EXCEPT !.FAuthors = {"S", "W"}, !.FCites = "all", !.Shape = "hist"]
+AclT(n, p) == [Bd(n, p, 1, AllEv, {"signed", "reduced"}, {"S", "W"}, {"none"},
+                  {"heads", "fork", "redundant", "oldroot"}, {FALSE}) EXCEPT !.FAuthors = {"S", "W"}]
 Bytes(n, p, f) == Bd(n, p, f, {"addW", "other"}, {"signed", "derived", "reduced"}, {"S", "W", "X"},
                      AllMuts, AllPKinds, BOOLEAN)
 
